@@ -11,9 +11,11 @@ tier = sys.argv[1] if len(sys.argv) > 1 else "quick"
 part = sys.argv[2] if len(sys.argv) > 2 else "0/1"   # i/n slice
 i, n = (int(x) for x in part.split("/"))
 out = sys.argv[3] if len(sys.argv) > 3 else os.path.join(HERE, "sweep_%s_%d_%d.json" % (tier, i, n))
+gen_only = tier.endswith("_gen")
+tier = tier.replace("_gen", "")
 cases = fixrun.universe(tier, 0, 0, 0, full=True)
-if tier == "thorough_only":
-    pass
+if gen_only:
+    cases = [c for c in cases if "gen" in c]
 cases = cases[i::n]
 print(len(cases), "cases", flush=True)
 t0 = time.time()
